@@ -28,6 +28,11 @@ THEOREMS = [
     "PorepyVerif.C20.face3_geometry_equivariant",
     "PorepyVerif.C20.cell3_geometry_equivariant",
     "PorepyVerif.C20.geom3_equivariant",
+    "PorepyVerif.C20.geom0_equivariant",
+    "PorepyVerif.C20.cell_diameter_invariant",
+    "PorepyVerif.C20.geom1_equivariant_wf",
+    "PorepyVerif.C20.geom2_equivariant_wf",
+    "PorepyVerif.C20.geom3_equivariant_wf",
     "PorepyVerif.C20.euclidean_length_real",
     "PorepyVerif.C20.norm_rotate_real",
     "PorepyVerif.C20.unit_normal_is_unit_real",
@@ -45,7 +50,7 @@ THEOREMS = [
 LEAN_MODULES = ["PorepyVerif.C20.Props"]
 AUDIT = "PorepyVerif/C20/Audit.lean"
 DRIVER = "PorepyVerif/C20/Driver.lean"
-N = {"quick": 120, "thorough": 6000}
+N = {"quick": 90, "thorough": 6000}
 TOL = 1e-10          # oracle tolerance (relative to the size of the coordinates)
 CTOL = 1e-9          # correspondence tolerance (class T)
 
@@ -56,7 +61,10 @@ RULE = ("one grid + one rigid motion per case. Grids: 1-D (uniform / non-uniform
         "-> plane fitting with map_geometry.compute_normal + convex fallback), two disconnected patches of equal area with opposite orientation "
         "(check 2), of unequal area (check 3). Motion: proper rotation from an integer quaternion (all rational rotations; identity, half turns, "
         "quarter turns and generic ones) + dyadic translation; with probability 0.4 the grid is first embedded by another such motion, so that both "
-        "the reference and the moved grid lie in a generic line / plane of 3-D. For 1-D / 2-D grids map_grid is run on both grids as well. non-trivial = rotation is not the identity; distinct = distinct cases")
+        "the reference and the moved grid lie in a generic line / plane of 3-D. For 1-D / 2-D grids map_grid is run on both grids as well, "
+        "cell_diameters() on all grids; 4% of the cases are 0-d point grids. Strata (counted in input_distribution.strata): scaled (all coordinates times 2^k, "
+        "k in -20,-10,10,20, results divided back exactly), permuted (random renumbering of nodes, faces, cells), extra-node (a node no face uses, 1-D/2-D), "
+        "single-cell, size-0-faces (point grid); every compute_geometry is repeated on the same object (idempotence). non-trivial = rotation is not the identity; distinct = distinct cases")
 TRUSTED = [
     "the real square root is now INSIDE the theorems: model and lemmas are generic over a linearly ordered field K and a function sq : K -> K; the *_real theorems "
     "instantiate K = R, sq = Real.sqrt (Mathlib) and quantify over every real proper rotation matrix. What stays outside: the driver runs the same definitions "
@@ -73,7 +81,13 @@ TRUSTED = [
     "modelled, not verified: numpy / scipy.sparse glue that gathers node coordinates per face and per cell (done by the harness when it resolves the grid "
     "for the driver), np.bincount, sparse products, np.unique(return_index)",
 ]
-EXPLANATION = ("CORE: the model mirrors _compute_geometry_1d/_2d/_3d, compute_tangent, compute_normal, rotation_matrix, project_plane/line_matrix and map_grid formula by "
+EXPLANATION = ("Clause map: cell volumes unchanged / face areas unchanged / centres and normals transformed by the motion = fields cv / fa / cc, fc / fn of "
+               "geom0_equivariant, geom1/2/3_equivariant(_wf, _real); embedding of 1-D and 2-D grids in arbitrary lines and planes = the same theorems with an arbitrary "
+               "3-D motion, plus tangent_equivariant / plane_normal_equivariant for the fitting path; 'proper rotations' = IsRot, established for the generator by "
+               "quat_rotation_isRot and decided by the driver per case; the remaining hypotheses (nodes exist, cells have faces, non-zero volumes / areas) are the decidable "
+               "conditions wf1/wf2/wf3, evaluated by the driver on every grid (answer field hyp, required true). Neighbouring entry points: cell_diameters "
+               "(cell_diameter_invariant) and map_grid (map_grid_*_real). "
+               "CORE: the model mirrors _compute_geometry_1d/_2d/_3d, compute_tangent, compute_normal, rotation_matrix, project_plane/line_matrix and map_grid formula by "
                "formula, generic over an ordered field K with an abstract square root; theorems (for every K, every sq): cross/dot/norm equivariance of rotations "
                "(R^T R = 1, det R = 1), equivariance of every geometry field of the three grid-level functions (volumes/areas invariant, centres moved, normals rotated), "
                "all orientation branches included; instantiated at K = R with Real.sqrt for EVERY real proper rigid motion (geom1/2/3_equivariant_real, Euclidean length, "
@@ -344,6 +358,8 @@ def _two_patches(rng, g1, g2):
 
 
 def gen_case(rng, tier):
+    if rng.random() < 0.04:
+        return gen_point_case(rng)
     g = gen_grid(rng, tier)
     variant = "plain"
     nodes, fn, cf = g["nodes"], g["fn"], g["cf"]
@@ -368,11 +384,53 @@ def gen_case(rng, tier):
             variant = "patch-flip-equal" if same else "patch-flip"
             nodes, fn, cf, f2 = _two_patches(rng, g, g2)
             fn = _reverse_faces(fn, f2)
+    strata = []
+    if g["dim"] < 3 and variant == "plain" and rng.random() < 0.12:
+        # a node that no face uses (in the line / plane of the grid): only compute_tangent / compute_normal / the mean see it
+        strata.append("extra-node")
+        nodes = np.hstack([nodes, (2 * nodes[:, -1] - nodes[:, 0] + (nodes[:, nodes.shape[1] // 2] - nodes[:, 0]) * (g["dim"] - 1)).reshape(3, 1)])
+    if rng.random() < 0.15:
+        strata.append("permuted")
+        nodes, fn, cf = _permute(rng, nodes, fn, cf)
     case = {"dim": g["dim"], "kind": g["kind"], "variant": variant,
             "nodes": [[frac(v) for v in row] for row in nodes], "fn": fn, "cf": cf, "motion": gen_motion(rng)}
     if rng.random() < 0.4:
         case["pre"] = gen_motion(rng)
+    if rng.random() < 0.15:
+        strata.append("scaled")
+        case["scale"] = rng.choice([-20, -10, 10, 20])     # all coordinates (and the translation) times 2^k (2^30 * 256 exceeds what map_grid's absolute planarity tolerance 1e-5 admits)
+    if len(cf["indptr"]) - 1 == 1:
+        strata.append("single-cell")
+    case["strata"] = strata
     return case
+
+
+def gen_point_case(rng):
+    """0-d grid (PointGrid): the fourth branch of compute_geometry"""
+    pt = [[frac(F(rng.randint(-64, 64), rng.choice([1, 2, 8])))] for _ in range(3)]
+    return {"dim": 0, "kind": "point0", "variant": "plain", "nodes": pt, "fn": {"indices": [], "indptr": [0]}, "cf": {"indices": [], "indptr": [0, 0], "data": []},
+            "motion": gen_motion(rng), "strata": ["size-0-faces"]}
+
+
+def _permute(rng, nodes, fn, cf):
+    """renumber nodes, faces and cells at random (node order inside a face and face order inside a cell are kept)"""
+    nn, nf, nc = nodes.shape[1], len(fn["indptr"]) - 1, len(cf["indptr"]) - 1
+    pn, pf, pc = list(range(nn)), list(range(nf)), list(range(nc))
+    rng.shuffle(pn); rng.shuffle(pf); rng.shuffle(pc)          # new index i holds old entity p[i]
+    inv_n = {old: new for new, old in enumerate(pn)}
+    inv_f = {old: new for new, old in enumerate(pf)}
+    nodes2 = nodes[:, pn]
+    fi, fp = [], [0]
+    for f in pf:
+        fi += [inv_n[k] for k in fn["indices"][fn["indptr"][f]:fn["indptr"][f + 1]]]
+        fp.append(len(fi))
+    ci, cd, cp = [], [], [0]
+    for c in pc:
+        a, b = cf["indptr"][c], cf["indptr"][c + 1]
+        ci += [inv_f[k] for k in cf["indices"][a:b]]
+        cd += cf["data"][a:b]
+        cp.append(len(ci))
+    return nodes2, {"indices": fi, "indptr": fp}, {"indices": ci, "indptr": cp, "data": cd}
 
 
 # ----------------------------------------------------------------------------- running the real code
@@ -383,9 +441,19 @@ def base_nodes(case):
     return nodes
 
 
+def sigma(case):
+    return F(2) ** int(case.get("scale", 0))
+
+
 def both_nodes(case):
+    """node coordinates of the reference and of the moved grid as given to the code; with case["scale"] = k both (and thus the
+    translation) are multiplied by 2^k, which is exact in binary64"""
     b = base_nodes(case)
-    return b, apply_motion(case["motion"], b)
+    m = apply_motion(case["motion"], b)
+    sg = sigma(case)
+    if sg != 1:
+        b, m = [[v * sg for v in row] for row in b], [[v * sg for v in row] for row in m]
+    return b, m
 
 
 def build_grid(case, nodes):
@@ -393,6 +461,8 @@ def build_grid(case, nodes):
     import scipy.sparse as sps
     xyz = np.array([[float(v) for v in row] for row in nodes], dtype=float).reshape(3, -1)
     nn = xyz.shape[1]
+    if case["dim"] == 0:
+        return pp.PointGrid(xyz[:, 0])
     fn, cf = case["fn"], case["cf"]
     nf, nc = len(fn["indptr"]) - 1, len(cf["indptr"]) - 1
     fnm = sps.csc_matrix((np.ones(len(fn["indices"]), dtype=bool), np.array(fn["indices"], dtype=int), np.array(fn["indptr"], dtype=int)), shape=(nn, nf))
@@ -400,7 +470,7 @@ def build_grid(case, nodes):
     return pp.Grid(case["dim"], xyz, fnm, cfm, "c20")
 
 
-def geometry(case, nodes):
+def geometry(case, nodes, repeat=False):
     """compute_geometry on the real code -> dict of plain float lists, or {"err": kind}"""
     g = build_grid(case, nodes)
     try:
@@ -410,9 +480,25 @@ def geometry(case, nodes):
                 g.compute_geometry()
     except Exception as e:
         return err_kind(e)
-    return {"fa": [float(v) for v in g.face_areas], "fc": [[float(v) for v in c] for c in g.face_centers.T],
-            "fn": [[float(v) for v in c] for c in g.face_normals.T], "cv": [float(v) for v in g.cell_volumes],
-            "cc": [[float(v) for v in c] for c in g.cell_centers.T]}
+    out = {"fa": [float(v) for v in g.face_areas], "fc": [[float(v) for v in c] for c in g.face_centers.T],
+           "fn": [[float(v) for v in c] for c in g.face_normals.T], "cv": [float(v) for v in g.cell_volumes],
+           "cc": [[float(v) for v in c] for c in g.cell_centers.T]}
+    if repeat:   # repeated operation: a second compute_geometry on the same object must reproduce the fields bit for bit
+        # (checked before cell_diameters(): that query sorts the stored indices of cell_faces in place, which changes summation order)
+        with warnings.catch_warnings():
+            warnings.simplefilter("ignore")
+            with np.errstate(all="ignore"):
+                g.compute_geometry()
+        again = {"fa": [float(v) for v in g.face_areas], "fc": [[float(v) for v in c] for c in g.face_centers.T],
+                 "fn": [[float(v) for v in c] for c in g.face_normals.T], "cv": [float(v) for v in g.cell_volumes],
+                 "cc": [[float(v) for v in c] for c in g.cell_centers.T]}
+        out["idempotent"] = all(np.array_equal(np.array(out[k]), np.array(again[k]), equal_nan=True) for k in again)
+    if case["dim"] > 0:
+        try:
+            out["diam"] = [float(v) for v in g.cell_diameters()]
+        except Exception as e:
+            out["diam"] = type(e).__name__
+    return _unscale(case, out)
 
 
 def mapgrid_impl(case, nodes):
@@ -428,26 +514,52 @@ def mapgrid_impl(case, nodes):
     except Exception as e:
         return err_kind(e)
     cols = lambda a: [[float(v) for v in c] for c in np.atleast_2d(a).T]
-    return {"R": [[float(v) for v in row] for row in R], "dim": [bool(d) for d in dim], "cc": cols(cc), "fn": cols(fn), "fc": cols(fc), "nodes": cols(nd)}
+    return _unscale(case, {"R": [[float(v) for v in row] for row in R], "dim": [bool(d) for d in dim], "cc": cols(cc), "fn": cols(fn), "fc": cols(fc), "nodes": cols(nd)})
 
 
 def impl_run(case):
     b, m = both_nodes(case)
     out = {"base": geometry(case, b), "moved": geometry(case, m)}
-    if case["dim"] < 3:
+    if 0 < case["dim"] < 3:
         out["map_base"], out["map_moved"] = mapgrid_impl(case, b), mapgrid_impl(case, m)
     return out
 
 
 # ----------------------------------------------------------------------------- oracle: the equivariance statement on the real code
 def _scale(case, nodes):
-    return max(1.0, max(abs(float(v)) for row in nodes for v in row))
+    return max(1.0, max(abs(float(v / sigma(case))) for row in nodes for v in row))
+
+
+def _unscale(case, fields):
+    """divide the fields of a grid whose coordinates were multiplied by 2^k by the matching power (exact), so that tolerances
+    can be those of the unscaled grid"""
+    sg = sigma(case)
+    if sg == 1 or not isinstance(fields, dict) or "err" in fields or "skipped" in fields:
+        return fields
+    d = case["dim"]
+    pw = {"fa": d - 1, "fn": d - 1, "cv": d, "fc": 1, "cc": 1, "nodes": 1, "diam": 1}
+    def div(x, k):
+        if isinstance(x, list):
+            return [div(y, k) for y in x]
+        return F(x) / sg ** k if isinstance(x, str) else float(F(x) / sg ** k)
+    out = {}
+    for k, v in fields.items():
+        if k in ("fa", "fn") and d == 1:
+            out[k] = v
+        elif k in pw:
+            out[k] = div(v, pw[k])
+        else:
+            out[k] = v
+    return out
 
 
 def oracle(case):
     b, m = both_nodes(case)
-    g0, g1 = geometry(case, b), geometry(case, m)
+    g0, g1 = geometry(case, b, repeat=True), geometry(case, m, repeat=True)
     tag = f"{case['dim']}d:{case.get('variant', 'plain')}"
+    for gg in (g0, g1):
+        if gg.get("idempotent") is False:
+            return {"what": f"a second compute_geometry() on the same grid changed the fields ({case['kind']})", "key": f"{tag}:not-idempotent"}
     if "err" in g0 or "err" in g1:
         if g0 == g1:
             return None
@@ -481,7 +593,14 @@ def oracle(case):
         i = int(np.argmax(np.max(np.abs(want - np.array(g1["fn"]).reshape(-1, 3)), axis=1)))
         return {"what": f"face_normals[{i}] = {g1['fn'][i]} after the motion, expected the rotated reference normal {want[i].tolist()} ({case['kind']}, {case.get('variant')})",
                 "key": f"{tag}:face_normals-not-equivariant"}
-    if case["dim"] < 3:
+    if "diam" in g0:
+        d0, d1 = g0["diam"], g1.get("diam")
+        if isinstance(d0, str) or isinstance(d1, str):
+            if d0 != d1:
+                return {"what": f"cell_diameters: {d0!r} before, {d1!r} after the motion", "key": f"{tag}:cell_diameters-error-not-invariant"}
+        elif bad(d0, d1, TOL * s * 10):
+            return {"what": f"cell_diameters {d0} before and {d1} after the motion ({case['kind']})", "key": f"{tag}:cell_diameters-not-invariant"}
+    if 0 < case["dim"] < 3:
         return _mapgrid_check(case, m, tag)
     return None
 
@@ -527,6 +646,8 @@ def resolve(case, nodes):
     """gather node coordinates per face and faces per cell, in csc storage order (the numpy/scipy glue of the code)"""
     fn, cf, dim = case["fn"], case["cf"], case["dim"]
     nn = len(nodes[0])
+    if dim == 0:
+        return {"nodes": [], "centers": [_v(nodes, 0)]}     # PointGrid(pt): no nodes, the point is the cell centre
     nf, nc = len(fn["indptr"]) - 1, len(cf["indptr"]) - 1
     fnodes = [fn["indices"][fn["indptr"][f]:fn["indptr"][f + 1]] for f in range(nf)]
     ccols = [[(cf["indices"][k], cf["data"][k]) for k in range(cf["indptr"][c], cf["indptr"][c + 1])] for c in range(nc)]
@@ -553,9 +674,21 @@ def model_ops(case):
     rb, rm = resolve(case, b), resolve(case, m)
     ops = [{"op": "geom", "dim": case["dim"], "grid": rb}, {"op": "geom", "dim": case["dim"], "grid": rm},
            {"op": "motion", "q": [str(v) for v in case["motion"]["q"]], "t": case["motion"]["t"], "pts": [_v(b, j) for j in range(len(b[0]))]}]
-    if case["dim"] < 3:
+    if case["dim"] > 0:
+        ops += [{"op": "diam", "cells": _cell_nodes(case, b)}, {"op": "diam", "cells": _cell_nodes(case, m)}]
+    if 0 < case["dim"] < 3:
         ops += [{"op": "mapgrid", "dim": case["dim"], "grid": rb}, {"op": "mapgrid", "dim": case["dim"], "grid": rm}]
     return ops
+
+
+def _cell_nodes(case, nodes):
+    """node coordinates of every cell (g.cell_nodes(): the nodes of its faces, each once)"""
+    fn, cf = case["fn"], case["cf"]
+    out = []
+    for c in range(len(cf["indptr"]) - 1):
+        ns = sorted({k for f in cf["indices"][cf["indptr"][c]:cf["indptr"][c + 1]] for k in fn["indices"][fn["indptr"][f]:fn["indptr"][f + 1]]})
+        out.append([_v(nodes, k) for k in ns])
+    return out
 
 
 def _decode_map(o):
@@ -570,10 +703,14 @@ def _decode_map(o):
 
 
 def model_decode(outs, case):
-    d = {"base": outs[0], "moved": outs[1], "motion": outs[2]}
-    if case["dim"] < 3:
-        d["map_base"], d["map_moved"] = _decode_map(outs[3]), _decode_map(outs[4])
-    return d
+    d = {"base": dict(outs[0]), "moved": dict(outs[1]), "motion": outs[2]}
+    if case["dim"] > 0:
+        for k, o in (("base", outs[3]), ("moved", outs[4])):
+            if "err" not in d[k]:
+                d[k]["diam"] = o
+    if 0 < case["dim"] < 3:
+        d["map_base"], d["map_moved"] = _decode_map(outs[5]), _decode_map(outs[6])
+    return {k: (_unscale(case, v) if k != "motion" else v) for k, v in d.items()}
 
 
 def compare(impl, model, case):
@@ -586,6 +723,13 @@ def compare(impl, model, case):
     d = deep_compare(want, model.get("motion") if isinstance(model, dict) else None, path="motion")
     if d:
         return d
+    for k in ("base", "moved"):     # the decidable hypotheses of the theorems (wf1 / wf2 / wf3) hold for the grid the driver was given
+        if isinstance(model.get(k), dict) and "err" not in model[k]:
+            if model[k].get("hyp") is not True:
+                return f"{k}: the hypothesis of the equivariance theorem (wf{case['dim']}) is false for this grid"
+            _MAPSTAT["hypotheses_checked"] = _MAPSTAT.get("hypotheses_checked", 0) + 1
+    model = {k: ({kk: vv for kk, vv in v.items() if kk != "hyp"} if isinstance(v, dict) else v) for k, v in model.items()}
+    impl = {k: ({kk: vv for kk, vv in v.items() if kk != "idempotent"} if isinstance(v, dict) else v) for k, v in impl.items()}
     s = max(_scale(case, b), _scale(case, m))
     keys = ["base", "moved"] + [k for k in ("map_base", "map_moved") if k in model and "skipped" not in model[k]]
     for k in ("map_base", "map_moved"):
@@ -596,7 +740,7 @@ def compare(impl, model, case):
 
 def signature(case):
     import json
-    return json.dumps({k: case[k] for k in ("dim", "nodes", "fn", "cf", "motion") if k in case} | {"pre": case.get("pre")}, sort_keys=True)
+    return json.dumps({k: case[k] for k in ("dim", "nodes", "fn", "cf", "motion", "scale") if k in case} | {"pre": case.get("pre")}, sort_keys=True)
 
 
 def shrink_candidates(case):
@@ -619,8 +763,10 @@ def stats(cases, impl_outs):
     rots = Counter("identity" if not any(c["motion"]["q"][1:]) else "half-turn" if c["motion"]["q"][0] == 0 and sum(1 for v in c["motion"]["q"] if v) == 1
                    else "quarter-turn" if sorted(map(abs, c["motion"]["q"])) == [0, 0, 1, 1] and c["motion"]["q"][0] else "generic" for c in cases)
     errs = Counter(o["base"].get("err") for o in impl_outs if isinstance(o, dict) and "base" in o and "err" in o["base"])
-    cells = [len(c["cf"]["indptr"]) - 1 for c in cases]
+    cells = [len(c["cf"]["indptr"]) - 1 for c in cases if c["dim"] > 0]
     return {"grid_kinds": dict(kinds), "variants_2d": dict(variants), "rotations": dict(rots), "pre_embedded": sum(1 for c in cases if c.get("pre")),
             "errors_raised_by_reference": {str(k): v for k, v in errs.items()}, "cells_min_max": [min(cells, default=0), max(cells, default=0)],
             "map_grid_comparisons": dict(_MAPSTAT),
+            "strata": dict(Counter(st for c in cases for st in c.get("strata", []))),
+            "scales_2^k": dict(Counter(str(c["scale"]) for c in cases if "scale" in c)),
             "max_translation": max((abs(float(F(v))) for c in cases for v in c["motion"]["t"]), default=0)}
